@@ -21,6 +21,7 @@ import (
 )
 
 // ListenTCP is net.ListenTCP.
+//
 //go:norace
 func ListenTCP(network string, laddr *net.TCPAddr) (net.Listener, error) {
 	t := simrt.Current()
@@ -35,6 +36,7 @@ func ListenTCP(network string, laddr *net.TCPAddr) (net.Listener, error) {
 }
 
 // Listen is net.Listen.
+//
 //go:norace
 func Listen(network, address string) (net.Listener, error) {
 	t := simrt.Current()
@@ -45,6 +47,7 @@ func Listen(network, address string) (net.Listener, error) {
 }
 
 // ListenTLS is tls.Listen; TLS is never simulated.
+//
 //go:norace
 func ListenTLS(network, laddr string, config *tls.Config) (net.Listener, error) {
 	t := simrt.Current()
@@ -79,6 +82,7 @@ type Profile struct {
 const valKey = "simnet"
 
 // Of returns the network of sim, creating it on first use.
+//
 //go:norace
 func Of(s *simrt.Sim) *Net {
 	if n, ok := s.Val(valKey).(*Net); ok {
@@ -114,10 +118,12 @@ type addr string
 
 //go:norace
 func (a addr) Network() string { return "tcp" }
+
 //go:norace
-func (a addr) String() string  { return string(a) }
+func (a addr) String() string { return string(a) }
 
 // Accept waits for the next connection.
+//
 //go:norace
 func (l *Listener) Accept() (net.Conn, error) {
 	t := simrt.Current()
@@ -142,6 +148,7 @@ func (l *Listener) Accept() (net.Conn, error) {
 
 // Close stops the listener; blocked Accept calls fail with net.ErrClosed.
 // Connections queued but not yet accepted are reset.
+//
 //go:norace
 func (l *Listener) Close() error {
 	if l.closed {
@@ -163,6 +170,7 @@ func (l *Listener) Close() error {
 }
 
 // Addr returns the listen address.
+//
 //go:norace
 func (l *Listener) Addr() net.Addr { return tcpAddr(l.addr) }
 
@@ -180,6 +188,7 @@ var ErrRefused = &net.OpError{Op: "dial", Net: "tcp", Err: syscall.ECONNREFUSED}
 
 // Dial connects a harness client to the listener at address and returns the
 // client end.
+//
 //go:norace
 func Dial(address string) (*Conn, error) {
 	t := simrt.Current()
@@ -203,6 +212,7 @@ func Dial(address string) (*Conn, error) {
 }
 
 // Pipe returns two connected ends (a dials b).
+//
 //go:norace
 func (n *Net) Pipe(aAddr, bAddr string) (*Conn, *Conn) {
 	ab := &stream{net: n, cap: n.Profile.BufCap}
@@ -270,11 +280,14 @@ type Conn struct {
 type timeoutError struct{}
 
 //go:norace
-func (timeoutError) Error() string   { return "i/o timeout" }
+func (timeoutError) Error() string { return "i/o timeout" }
+
 //go:norace
-func (timeoutError) Timeout() bool   { return true }
+func (timeoutError) Timeout() bool { return true }
+
 //go:norace
 func (timeoutError) Temporary() bool { return true }
+
 //go:norace
 func (timeoutError) Is(err error) bool {
 	return err == os.ErrDeadlineExceeded
@@ -286,6 +299,7 @@ func (c *Conn) opErr(op string, err error) error {
 }
 
 // Read implements net.Conn.
+//
 //go:norace
 func (c *Conn) Read(p []byte) (int, error) {
 	t := simrt.Current()
@@ -340,6 +354,7 @@ func (c *Conn) Read(p []byte) (int, error) {
 }
 
 // Write implements net.Conn.
+//
 //go:norace
 func (c *Conn) Write(p []byte) (int, error) {
 	t := simrt.Current()
@@ -424,6 +439,7 @@ func (c *Conn) Write(p []byte) (int, error) {
 }
 
 // chunk returns how many of n bytes go into the next segment.
+//
 //go:norace
 func (nt *Net) chunk(n int) int {
 	if n <= 1 {
@@ -457,6 +473,7 @@ func pickChunk(S *simrt.Choices, n int) int {
 
 // Close closes this end: the peer reads EOF after draining, the peer's later
 // writes fail.
+//
 //go:norace
 func (c *Conn) Close() error {
 	if c.closed {
@@ -475,6 +492,7 @@ func (c *Conn) Close() error {
 }
 
 // CloseWrite half-closes: the peer reads EOF, this end can still read.
+//
 //go:norace
 func (c *Conn) CloseWrite() error {
 	c.out.finished = true
@@ -483,6 +501,7 @@ func (c *Conn) CloseWrite() error {
 }
 
 // Abort resets the connection: both directions fail with ECONNRESET.
+//
 //go:norace
 func (c *Conn) Abort() {
 	c.closed = true
@@ -501,22 +520,27 @@ func (c *Conn) Abort() {
 
 // PeerAccepted reports whether the listener's Accept has returned the other
 // end of this connection.
+//
 //go:norace
 func (c *Conn) PeerAccepted() bool { return c.peer.accepted }
 
 // PeerClosed reports whether the other end has closed (or reset) the connection.
+//
 //go:norace
 func (c *Conn) PeerClosed() bool { return c.peer.closed || c.in.reset }
 
 // LocalAddr implements net.Conn.
+//
 //go:norace
 func (c *Conn) LocalAddr() net.Addr { return tcpAddr(c.local) }
 
 // RemoteAddr implements net.Conn.
+//
 //go:norace
 func (c *Conn) RemoteAddr() net.Addr { return tcpAddr(c.remote) }
 
 // SetDeadline implements net.Conn.
+//
 //go:norace
 func (c *Conn) SetDeadline(t time.Time) error {
 	c.rdl, c.wdl = t, t
@@ -526,6 +550,7 @@ func (c *Conn) SetDeadline(t time.Time) error {
 }
 
 // SetReadDeadline implements net.Conn.
+//
 //go:norace
 func (c *Conn) SetReadDeadline(t time.Time) error {
 	if c.closed {
@@ -537,6 +562,7 @@ func (c *Conn) SetReadDeadline(t time.Time) error {
 }
 
 // SetWriteDeadline implements net.Conn.
+//
 //go:norace
 func (c *Conn) SetWriteDeadline(t time.Time) error {
 	if c.closed {
@@ -548,6 +574,7 @@ func (c *Conn) SetWriteDeadline(t time.Time) error {
 }
 
 // Buffered returns the bytes written by the peer and not yet read here.
+//
 //go:norace
 func (c *Conn) Buffered() int { return c.in.size }
 
